@@ -141,3 +141,58 @@ func (b *zzBoth) Data(stream *Stream, moreDetails bool) ([]Data, uint64, uint64,
 func (b *zzBoth) DataForSearch(id uint64) ([2][]byte, [][2]int, uint64, uint64, bool, error) {
 	return b.l[0].DataForSearch(id)
 }
+
+// ZZ_C04_Captures: filters whose expression has named groups — some of which
+// may take no part in a match — through the real filter: no panic, same
+// answer as a plain scan of the direction's payload.
+func ZZ_C04_Captures() {
+	c := zzNewConv("s0", zz.Param("chunks", 2))
+	type ex struct {
+		re    string
+		holds func(buf []byte) bool
+	}
+	has := func(buf []byte, x byte) bool {
+		r := false
+		for _, v := range buf {
+			r = zz.Or(r, v == x)
+		}
+		return r
+	}
+	exprs := []ex{
+		{`(?P<x>a)b`, func(b []byte) bool {
+			r := false
+			for i := 0; i+1 < len(b); i++ {
+				r = zz.Or(r, zz.And(b[i] == 'a', b[i+1] == 'b'))
+			}
+			return r
+		}},
+		{`(?P<x>a)?b`, func(b []byte) bool { return has(b, 'b') }},
+		{`(?P<x>a)|b`, func(b []byte) bool { return zz.Or(has(b, 'a'), has(b, 'b')) }},
+		{`(?P<x>a*)b`, func(b []byte) bool { return has(b, 'b') }},
+		{`b(?P<x>a)?`, func(b []byte) bool { return has(b, 'b') }},
+	}
+	e := exprs[zz.Choice("expr", len(exprs))]
+	dir := zz.Choice("dir", 2)
+	dc := &query.DataCondition{Elements: []query.DataConditionElement{{Regex: e.re, Flags: uint8(dir), ConverterName: "conv0"}}}
+	dcc := dataConditionsContainer{}
+	zz.Assert(dcc.add(dc, "", nil) == nil, "add.noerr")
+	filters, err := dcc.finalize(nil, 0, nil, map[string]ConverterAccess{"conv0": c})
+	zz.Assert(err == nil, "finalize.noerr")
+	if err != nil {
+		return
+	}
+	got := true
+	for _, f := range filters {
+		ok, err := f(&searchContext{}, &stream{StreamID: 1})
+		zz.Assert(err == nil, "filter.noerr")
+		got = got && ok
+	}
+	var buf []byte
+	for i, d := range c.dirs {
+		if int(d) == dir {
+			buf = append(buf, c.bytes[i])
+		}
+	}
+	zz.Observe("got", got)
+	zz.Assert(zz.Iff(got, e.holds(buf)), "capture-filter-agrees-with-plain-scan")
+}
